@@ -1,1 +1,171 @@
-From InvokeVerif Require Import Corr.C03Corr.
+(** C03 -- Every setting comes from the highest-precedence level that defines
+    it; load-order irrelevance; first existing suffix only.
+    Statements only; proofs are in Proofs/C03_merge.v, C03_levels.v, C03_order.v. *)
+From Coq Require Import Permutation.
+From InvokeVerif Require Import Common.Tree Common.StrUtil Model.MergeModel Model.ConfigModel
+     Spec.C03Spec Proofs.C03_merge Proofs.C03_levels Proofs.C03_order.
+
+(** Path lookup through [merge_dicts] for type-consistent trees: the merge
+    succeeds, stays well-formed, and at every path shows what the update says
+    (a leaf value, or "section"), else what the base says. *)
+Theorem C03_merge_lookup : forall base us,
+  wf (Node base) = true -> wf (Node us) = true -> agree (Node base) (Node us) ->
+  exists m, merge_dicts base (Node us) = Ok m /\ wf (Node m) = true /\
+    forall p, shape_at p (Node m) = orelse (shape_at p (Node us)) (shape_at p (Node base)).
+Proof. exact merge_lookup. Qed.
+
+Theorem C03_merge_keys_union : forall base us m,
+  wf (Node base) = true -> wf (Node us) = true -> agree (Node base) (Node us) ->
+  merge_dicts base (Node us) = Ok m ->
+  forall k, has k m = has k base || has k us.
+Proof. exact merge_keys_union. Qed.
+
+(** Flagship: for ANY list of type-consistent levels (lowest precedence first)
+    merging them in order succeeds and the view agrees with the per-setting
+    oracle at EVERY path: a leaf with the value of the last level defining the
+    path, a section where the defining levels have sections (so sections are the
+    union of the levels' sections and every setting defined anywhere is visible),
+    nothing elsewhere. *)
+Theorem C03_highest_level_wins : forall ls,
+  ls <> [] -> forallb wf ls = true -> forallb is_node ls = true -> levels_tc ls = true ->
+  exists view, merge_all ls [] = Ok view /\ wf (Node view) = true /\
+               forall p, shape_at p (Node view) = oracle p ls.
+Proof. exact highest_level_wins. Qed.
+
+(** The oracle spelled out: the shape at [p] is the one given by the last level
+    in documented order that defines [p]. *)
+Theorem C03_oracle_is_last_defining_level : forall p ls s,
+  oracle p ls = Some s <->
+  exists l1 L l2, ls = l1 ++ L :: l2 /\ shape_at p L = Some s /\
+                  forall L', In L' l2 -> shape_at p L' = None.
+Proof. exact oracle_some_iff. Qed.
+
+(** The same, for a configuration object: what [merge()] computes from the nine
+    levels (file levels taking part only when found) before deletions. *)
+Theorem C03_highest_level_wins_config : forall c,
+  forallb wf (levels_of c) = true -> forallb is_node (levels_of c) = true ->
+  levels_tc (levels_of c) = true ->
+  exists view, merge_levels c = Ok view /\ wf (Node view) = true /\
+               forall p, shape_at p (Node view) = oracle p (levels_of c).
+Proof.
+  intros c H1 H2 H3. apply highest_level_wins; try assumption. discriminate.
+Qed.
+
+(** The model's merged view is accepted by the executable check of the spec. *)
+Theorem C03_view_meets_spec : forall ls view,
+  ls <> [] -> forallb wf ls = true -> forallb is_node ls = true -> levels_tc ls = true ->
+  merge_all ls [] = Ok view -> view_ok ls (Node view) = true.
+Proof. exact view_meets_spec. Qed.
+
+(** The order in which [merge()] applies the levels, and the suffix preference,
+    are the documented ones. *)
+Theorem C03_order_is_documented :
+  level_order = ["defaults"; "collection"; "system"; "user"; "project"; "env"; "runtime";
+                 "overrides"; "modifications"] /\
+  (forall c, map fst (level_list c) = level_order) /\
+  file_suffixes = ["yaml"; "yml"; "json"; "py"].
+Proof. split; [reflexivity|]. split; [exact level_list_names | reflexivity]. Qed.
+
+(** Tie to the source text: the sequence of statements of [Config.merge] and the
+    [_file_suffixes] tuple, re-read from invoke/config.py on every run
+    (Generated/Tables.v), are the ones the model was written from.  [None] = the
+    translator did not recognise the shape (behavioural correspondence only). *)
+From InvokeVerif Require Generated.Tables.
+Theorem C03_order_matches_source :
+  match Generated.Tables.merge_order_src with
+  | Some t => t = ["<reset>"; "defaults"; "collection"; "file:system"; "file:user"; "file:project";
+                   "env"; "file:runtime"; "overrides"; "modifications"; "<obliterate deletions>"]
+  | None => True
+  end /\
+  match Generated.Tables.file_suffixes_src with
+  | Some t => t = file_suffixes
+  | None => True
+  end.
+Proof. split; vm_compute; reflexivity. Qed.
+
+(** Load-order irrelevance.  Any two orders of the same load calls on distinct
+    levels (with or without merge=False), both running without an exception,
+    leave the same level contents ... *)
+Theorem C03_load_order_same_levels : forall fs c ops1 ops2,
+  Forall (fun o => is_load_op o = true) ops1 -> NoDup (map load_tag ops1) ->
+  Permutation ops1 ops2 ->
+  clean (snd (run fs c ops1)) = true -> clean (snd (run fs c ops2)) = true ->
+  strip (fst (run fs c ops1)) = strip (fst (run fs c ops2)).
+Proof. exact load_order_same_levels. Qed.
+
+(** ... the same view when every call merges (the default) ... *)
+Theorem C03_load_order_irrelevant : forall fs c ops1 ops2,
+  cache_ok c ->
+  Forall (fun o => is_plain_load o = true) ops1 -> NoDup (map load_tag ops1) ->
+  Permutation ops1 ops2 ->
+  clean (snd (run fs c ops1)) = true -> clean (snd (run fs c ops2)) = true ->
+  c_cache (fst (run fs c ops1)) = c_cache (fst (run fs c ops2)).
+Proof. exact load_order_irrelevant. Qed.
+
+(** ... the same state after a final merge() when some calls were deferred ... *)
+Theorem C03_load_order_irrelevant_merge : forall fs c ops1 ops2,
+  Forall (fun o => is_load_op o = true) ops1 -> NoDup (map load_tag ops1) ->
+  Permutation ops1 ops2 ->
+  clean (snd (run fs c ops1)) = true -> clean (snd (run fs c ops2)) = true ->
+  step fs (fst (run fs c ops1)) Merge = step fs (fst (run fs c ops2)) Merge.
+Proof. exact load_order_irrelevant_merge. Qed.
+
+(** ... and the same outcome, environment level and view after the final
+    load_shell_env() (the environment being read once the others are in place). *)
+Theorem C03_load_order_irrelevant_env : forall fs c ops1 ops2 env,
+  Forall (fun o => is_load_op o = true) ops1 -> NoDup (map load_tag ops1) ->
+  Permutation ops1 ops2 ->
+  clean (snd (run fs c ops1)) = true -> clean (snd (run fs c ops2)) = true ->
+  step fs (fst (run fs c ops1)) (LoadShellEnv env) = step fs (fst (run fs c ops2)) (LoadShellEnv env).
+Proof. exact load_order_irrelevant_env. Qed.
+
+(** For each file location exactly the first existing candidate in the
+    documented suffix order is read (an unreadable one is an error, later ones
+    are never consulted).  The [None] line records a quirk of the code: a
+    missing [.py] candidate loads as an empty dict instead of "not found". *)
+Theorem C03_first_suffix_only : forall fs loc,
+  try_suffixes fs loc file_suffixes =
+  match first_existing fs loc with
+  | Some (s, FData t) => LFound s t
+  | Some (s, FIOErr) => LFail
+  | None => LFound "py" (Node [])
+  end.
+Proof. exact first_suffix_only. Qed.
+
+Theorem C03_later_candidates_irrelevant : forall fs fs' loc,
+  first_existing fs loc = first_existing fs' loc ->
+  try_suffixes fs loc file_suffixes = try_suffixes fs' loc file_suffixes.
+Proof. exact later_candidates_irrelevant. Qed.
+
+(** Non-vacuity: three type-consistent levels defining a common nested path, a
+    section that is a union, and a script whose two orders satisfy the
+    hypotheses of the load-order theorems. *)
+Example C03_example_levels :
+  let l1 := Node [("run", Node [("echo", Leaf (VBool false)); ("shell", Leaf (VStr "sh"))])] in
+  let l2 := Node [("run", Node [("echo", Leaf (VBool true))]); ("n", Leaf (VInt 1))] in
+  let l3 := Node [("run", Node [("pty", Leaf (VBool true)); ("echo", Leaf (VBool false))])] in
+  forallb wf [l1; l2; l3] = true /\ levels_tc [l1; l2; l3] = true /\
+  merge_all [l1; l2; l3] [] =
+    Ok [("run", Node [("echo", Leaf (VBool false)); ("shell", Leaf (VStr "sh")); ("pty", Leaf (VBool true))]);
+        ("n", Leaf (VInt 1))] /\
+  oracle ["run"; "echo"] [l1; l2; l3] = Some (SLeaf (VBool false)) /\
+  oracle ["run"] [l1; l2; l3] = Some SNode.
+Proof. vm_compute. repeat split; reflexivity. Qed.
+
+Example C03_example_orders :
+  let fs := [(("sys", "yml"), FData (Node [("a", Leaf (VInt 2))]));
+             (("sys", "json"), FData (Node [("a", Leaf (VInt 3))]))] in
+  let c := blank (Node []) (Node []) (Some "sys") (Some "usr") None None "INVOKE_" in
+  let ops1 := [LoadDefaultsD (Node [("a", Leaf (VInt 1)); ("b", Leaf (VInt 1))]); LoadSystem;
+               LoadOverrides (Node [("b", Leaf (VInt 9))])] in
+  let ops2 := [LoadOverrides (Node [("b", Leaf (VInt 9))]);
+               LoadDefaultsD (Node [("a", Leaf (VInt 1)); ("b", Leaf (VInt 1))]); LoadSystem] in
+  Forall (fun o => is_load_op o = true) ops1 /\ NoDup (map load_tag ops1) /\
+  clean (snd (run fs c ops1)) = true /\ clean (snd (run fs c ops2)) = true /\
+  c_cache (fst (step fs (fst (run fs c ops1)) Merge)) = [("a", Leaf (VInt 2)); ("b", Leaf (VInt 9))] /\
+  first_existing fs "sys" = Some ("yml", FData (Node [("a", Leaf (VInt 2))])).
+Proof.
+  vm_compute. repeat split; try reflexivity.
+  - repeat constructor.
+  - repeat constructor; simpl; intuition discriminate.
+Qed.
